@@ -800,6 +800,13 @@ func (tic *TermInCommittee) HandleNewView(nvm *interfaces.NewViewMessage) {
 		return
 	}
 
+	for _, confirmation := range viewChangeConfirmations {
+		if err := tic.isViewChangeValid(calculatedLeaderFromNewView, nvmHeader.View(), confirmation); err != nil {
+			tic.logger.Info("LHMSG RECEIVED NEW_VIEW IGNORE - NewView.ViewChangeConfirmation of %s is invalid: %s", Str(confirmation.Sender().MemberId()), err)
+			return
+		}
+	}
+
 	latestVote := tic.latestViewChangeVote(viewChangeConfirmations)
 	if latestVote != nil {
 
